@@ -328,7 +328,88 @@ def check_cfg(chk, cfg, all_faults=True):
         shutil.rmtree(tmp, ignore_errors=True)
 
 
+def check_header_for_every_sampler(chk):
+    """the part of the property every sampler owes: a run with a checkpoint file that is interrupted leaves a file holding the
+    configuration and the proposal in use, loadable by the documented resume route - also when the sampler itself writes no
+    checkpoints (importance sampling, the plain MCMC samplers) and also for a run started on a resumed, refitted object"""
+    from aspire import Aspire
+
+    tmp = tempfile.mkdtemp(prefix="aspire_verif_")
+    try:
+        for sampler, kw in (("importance", {}), ("minipcn", {"n_steps": 3}), ("smc", {"sampler_kwargs": {"n_steps": 1}, "adaptive": False, "n_steps": 3})):
+            for route in ("path", "auto"):
+                for fault_at in (0, 1):
+                    t = smcrun.Target(2)
+                    a = al.make_aspire(t, dims=2, flow_seed=21)
+                    a.fit(al.training_samples(2, 3))
+                    p = os.path.join(tmp, f"hdr_{sampler}_{route}_{fault_at}.h5")
+                    case = {"level": "header", "sampler": sampler, "route": route, "fault": f"likelihood call {fault_at}"}
+                    chk.count(f"header_for_sampler:{sampler}")
+                    chk.case(case, json.dumps(case))
+                    t.fault_at = fault_at
+                    try:
+                        with al.orng_seed(4):
+                            if route == "auto":
+                                with a.auto_checkpoint(p, every=1):
+                                    a.sample_posterior(n_samples=10, sampler=sampler, **kw)
+                            else:
+                                a.sample_posterior(n_samples=10, sampler=sampler, checkpoint_path=p, **kw)
+                        continue            # the interruption did not arrive (fewer likelihood calls): nothing to check here
+                    except smcrun.FAULTS:
+                        pass
+                    except Exception as e:   # noqa
+                        chk.fail("run total", case, repr(e)[:200], {"level": "header", "clause": "raise"})
+                        continue
+                    summ = al.file_summary(p)
+                    sig = {"level": "header", "sampler": sampler, "route": route}
+                    if not summ.get("exists") or not summ.get("has_config") or not summ.get("has_flow"):
+                        chk.fail("file contains the configuration and the proposal", case,
+                                 f"after the interruption: file exists={summ.get('exists')}, groups present: {summ.get('groups')}", {**sig, "clause": "header"})
+                        continue
+                    if (round(summ["flow_mu"], 9), round(summ["flow_sigma"], 9)) != (round(a.flow.mu, 9), round(a.flow.sigma, 9)):
+                        chk.fail("file contains the configuration and the proposal", case, "the stored proposal is not the one in use", {**sig, "clause": "header_flow"})
+                    try:
+                        Aspire.resume_from_file(p, log_likelihood=t.log_likelihood, log_prior=t.log_prior)
+                    except Exception as e:   # noqa
+                        chk.fail("loadable by the documented resume route", case, repr(e)[:200], {**sig, "clause": "resume_raise", "exc": type(e).__name__})
+        # a resumed object is refitted and samples again WITHOUT opening a new context; that run is interrupted
+        for fault_at in (1, 5, 9):
+            t = smcrun.Target(2)
+            a = al.make_aspire(t, dims=2, flow_seed=22)
+            a.fit(al.training_samples(2, 4, center=0.2, spread=0.9))
+            p = os.path.join(tmp, f"refit_{fault_at}.h5")
+            skw = dict(n_samples=10, sampler="smc", sampler_kwargs={"n_steps": 1}, adaptive=False, n_steps=3)
+            case = {"level": "header", "sequence": "run, resume_from_file, refit, interrupted run on the resumed object", "fault": f"likelihood call {fault_at}"}
+            chk.count("header_after_resume_and_refit")
+            chk.case(case, json.dumps(case))
+            try:
+                with al.orng_seed(5), a.auto_checkpoint(p, every=1):
+                    a.sample_posterior(**skw)
+                t2 = smcrun.Target(2)
+                r1 = Aspire.resume_from_file(p, log_likelihood=t2.log_likelihood, log_prior=t2.log_prior)
+                r1.fit(al.training_samples(2, 5, center=0.9, spread=1.8))
+                t2.n_like = 0
+                t2.fault_at = fault_at
+                try:
+                    with al.orng_seed(6):
+                        r1.sample_posterior(**skw)
+                    continue
+                except smcrun.FAULTS:
+                    pass
+                summ = al.file_summary(p)
+                if not summ.get("has_config") or not summ.get("has_flow") or \
+                        (round(summ["flow_mu"], 9), round(summ["flow_sigma"], 9)) != (round(r1.flow.mu, 9), round(r1.flow.sigma, 9)):
+                    chk.fail("file contains the configuration and the proposal", case,
+                             "after the interruption the file does not hold the proposal the interrupted run was using (the refitted one)",
+                             {"level": "header", "clause": "header_flow", "after_refit": True})
+            except Exception as e:   # noqa
+                chk.fail("run total", case, repr(e)[:200], {"level": "header", "clause": "raise"})
+    finally:
+        shutil.rmtree(tmp, ignore_errors=True)
+
+
 def run(chk: core.Check):
+    check_header_for_every_sampler(chk)
     r = np.random.default_rng(chk.seed + 12012)
     quick = chk.tier == "quick"
     chk.rule = ("unit: random payload-size sequences through dump_pickle_to_hdf; run: sample_posterior/auto_checkpoint SMC runs x cadence 1-4 x "
